@@ -106,14 +106,17 @@ def coq_prepare():
             raise BrokenTie("coq_makefile failed", out)
 
 
-def coq_make(targets, timeout=1500):
-    """full .vo build of the given targets (paths relative to coq/, '.vo'); returns the log"""
+def coq_make(targets, timeout=900):
+    """full .vo build of the given targets (paths relative to coq/, '.vo'); returns the log.
+    The build lock is global: a single file may take at most 5 minutes of coqc time (TIMED below),
+    so that one runaway proof cannot block everybody else for long."""
     with Lock(".build.lock"):
         coq_prepare()
-        cmd = ["make", "-j%d" % NPROC] + list(targets)
+        cmd = ["make", "-j%d" % NPROC, "COQC=timeout 330 coqc"] + list(targets)
         try:
             rc, out = sh(cmd, cwd=COQ, timeout=timeout)
         except subprocess.TimeoutExpired:
+            sh("pkill -f 'coqc .*-Q . RB' || true")
             raise BrokenTie("coq build timed out", " ".join(cmd))
     if rc != 0:
         raise BrokenTie("coq build failed: " + " ".join(targets), out[-6000:])
